@@ -5,7 +5,7 @@
 (* (sys/PadFns) that the exhaustive models check.  One state per case so    *)
 (* that all workers share the work; a disagreement violates `Agree`.        *)
 (***************************************************************************)
-EXTENDS PadBytes, Sequences, FiniteSets
+EXTENDS PadBytes, Sequences, FiniteSets, Integers
 F(s, b, w, mk) == INSTANCE PadFns WITH Scheme <- s, B <- b, W <- w, Marker <- mk
 
 RECURSIVE BytesToBitsR(_,_,_)
@@ -56,4 +56,5 @@ Agree ==
      /\ (sch.s # "none" => Unpad(sch, tail, it.st.padcnt) = Ok(BitsToBytes(msg, 0)))
      /\ LET u == F(sch.s, 8*sch.B, 8*sch.w, sch.mk)!Unpad(bitpad, it.st.padcnt)
         IN sch.s # "none" => (u.ok /\ u.val = msg)
+
 =============================================================================
